@@ -532,6 +532,7 @@ def run(run, tier):
     esirx.part(run, tier, 'C10', props, per)
     C.extra_props(run, 'C10', props, ['C10esis'])
     from . import discx; discx.part(run, tier, 'C10', props, per)
+    from . import genx; genx.part(run, tier, 'C10', props, per)
     stats['scripted_simulators'] = per
     # ---- verdicts
     for key, (size, what, c) in spec_bad.items():
@@ -562,6 +563,9 @@ def run(run, tier):
 
 
 def replay(rp):
+    if rp['replay'].get('genx'):
+        from . import genx
+        return genx.replay(rp)
     if rp['replay'].get('discx'):
         from . import discx
         return discx.replay(rp)
